@@ -208,6 +208,16 @@ func (g *Gen) expr(k Kind, depth int) *Node {
 		if leaf || g.chance(30) {
 			return Var([]string{"true", "false"}[g.R.Intn(2)])
 		}
+		if g.F.More && g.chance(20) {
+			if ms := g.varsOfKind(KMap); len(ms) > 0 && g.chance(50) {
+				return CapCmd("has-key", Var(g.pick(ms)), Str(g.pick(keyWords)))
+			}
+			if ls := g.varsOfKind(KList); len(ls) > 0 {
+				l := g.pick(ls)
+				return CapCmd(g.pick([]string{"has-value", "has-key"}), Var(l), g.Expr(KNStr, depth-1))
+			}
+			return CapCmd("bool", g.Expr(KAny, depth-1))
+		}
 		switch g.R.Intn(4) {
 		case 0:
 			return CapCmd(g.pick([]string{"==", "<", "<=", ">", ">=", "!="}), g.numeric(depth-1), g.numeric(depth-1))
@@ -246,6 +256,10 @@ func (g *Gen) expr(k Kind, depth int) *Node {
 			}
 			return CapCmd("num", g.numLit())
 		default:
+			if g.F.More && g.chance(30) {
+				d := 1 + g.R.Intn(4)
+				return CapCmd("/", Str(fmt.Sprint(d*g.R.Intn(6))), Str(fmt.Sprint(d)))
+			}
 			return CapCmd("+", g.numeric(depth-1), g.numLit())
 		}
 	case KNStr:
@@ -259,6 +273,12 @@ func (g *Gen) expr(k Kind, depth int) *Node {
 		}
 		if leaf || g.chance(40) {
 			return Str(g.pick(words))
+		}
+		if g.F.More && g.chance(15) {
+			if g.chance(50) {
+				return CapCmd("kind-of", g.Expr(KAny, depth-1))
+			}
+			return CapCmd("to-string", g.numeric(depth-1))
 		}
 		switch g.R.Intn(4) {
 		case 0, 1:
@@ -282,6 +302,9 @@ func (g *Gen) expr(k Kind, depth int) *Node {
 			l := g.expr(KList, depth-1)
 			return Idx(l, Str(g.sliceText()))
 		}
+		if !leaf && g.F.More && g.chance(15) {
+			return CapCmd("conj", g.expr(KList, depth-1), g.Expr(KNStr, depth-1))
+		}
 		n := g.R.Intn(4)
 		if leaf && n > 2 {
 			n = 2
@@ -295,6 +318,12 @@ func (g *Gen) expr(k Kind, depth int) *Node {
 	case KMap:
 		if vs := g.varsOfKind(KMap); len(vs) > 0 && g.chance(35) {
 			return Var(g.pick(vs))
+		}
+		if !leaf && g.F.More && g.chance(20) {
+			if g.chance(50) {
+				return CapCmd("assoc", g.expr(KMap, depth-1), Str(g.pick(keyWords)), g.Expr(KNStr, depth-1))
+			}
+			return CapCmd("dissoc", g.expr(KMap, depth-1), Str(g.pick(keyWords)))
 		}
 		n := g.R.Intn(3)
 		var ps [][2]*Node
